@@ -765,6 +765,7 @@ def mon_c06(t):
     fetched = {}
     served = {}      # node -> (ClusterCIDR name, CIDRs, incarnation): who the controller itself took the node's blocks from
     inc = 0
+    svc = []         # the service ranges of the current incarnation
     for k, op in enumerate(t.ops):
         f = op.split()
         if f[0] == "cc+":
@@ -779,6 +780,12 @@ def mon_c06(t):
         # the node (a new incarnation finds the ClusterCIDR of a node's CIDRs through the node's current labels)
         if f[0] == "construct":
             inc += 1
+            svc = [x for x in (ptok(f[1]) if f[1] != "-" else None, ptok(f[2]) if f[2] != "-" else None) if x]
+        # an object the controller itself creates (the default ClusterCIDR) is a new object: what an earlier object or an
+        # in-memory entry of that name served is not accounted to it
+        for e in t.fx[k]:
+            if e["kind"] == "createcc" and e["out"] == "ok":
+                served = {n: v for n, v in served.items() if v[0] != e["name"]}
         # which ClusterCIDR object does this step process?
         proc = None
         if f[0] == "pc" and k > 0:
@@ -810,8 +817,12 @@ def mon_c06(t):
                                 # a node depends on the ClusterCIDR when its CIDRs are reserved there on its behalf: it is
                                 # associated, or the ClusterCIDR selects it (a node the ClusterCIDR does not select is never
                                 # recorded there; an overlap with e.g. a service-range reservation is a coincidence)
-                                tracked = n["name"] in en["assoc"] or (spec is not None and sel_matches(spec["sel"], n["labels"]))
-                                if tracked and p and any(overlap(c, key) for key in p["keys"]):
+                                # (for a node that is not associated, blocks that are marked because they overlap a service
+                                # range of this incarnation say nothing: the controller may not even have been told of the node)
+                                assoc = n["name"] in en["assoc"]
+                                tracked = assoc or (spec is not None and sel_matches(spec["sel"], n["labels"]))
+                                keys = [key for key in p["keys"] if assoc or not any(overlap(key, sv) for sv in svc)] if p else []
+                                if tracked and p and any(overlap(c, key) for key in keys):
                                     bad.append({"step": k, "clause": "finalizer removed while an existing node depends on the ClusterCIDR",
                                                 "detail": "%s still reserves %s for node %s" % (e["name"], c, n["name"]), "cls": classify_c06(t, k, en, n)})
                     # ... or the controller itself took the node's current pod CIDRs from this ClusterCIDR (its own records of
